@@ -2,7 +2,7 @@
 import itertools
 
 from ..core.choice_rng import ChoiceRng
-from ..core.explorer import Chooser, explore
+from ..core.explorer import NOT_REPRODUCIBLE, Chooser, explore
 from ..core.runner import Partial
 
 LEVEL = "exploration"
@@ -576,7 +576,7 @@ def task(args):
             except Exception as e:
                 return f"exception:{type(e).__name__}", repr(e)
         n = 0
-        for ch, res in explore(lambda c: fn(cfg, c), max_dev=max_dev, cap=cap):
+        for ch, res in explore(lambda c: fn(cfg, c), max_dev=max_dev, cap=cap, diverged=lambda msg: (NOT_REPRODUCIBLE, msg)):
             if ch is None:
                 p.count("configs_capped")
                 break
